@@ -100,6 +100,7 @@ struct Results {
     /// clients whose server connection has completed its handshake (from then on the server
     /// accepts a migration)
     server_ready: std::collections::BTreeSet<u32>,
+    client_confirmed: std::collections::BTreeSet<u32>,
 }
 
 type Res = Arc<Mutex<Results>>;
@@ -423,6 +424,20 @@ async fn client_main(sim: Sim, res: Res, lbl: Lbl, ep: Endpoint, cfg: quinn::Cli
             return;
         }
     };
+    {
+        // handshake_confirmed() must complete (or fail with the connection): a waiter of its own
+        let (r2, c2) = (res.clone(), conn.clone());
+        spawn(&sim, &res, format!("client{}-confirmed", ci), move |l| {
+            Box::pin(async move {
+                l.set("handshake_confirmed()");
+                if c2.handshake_confirmed().await.is_ok() {
+                    r2.lock().unwrap().client_confirmed.insert(ci);
+                }
+                drop(c2);
+                l.set("done");
+            })
+        });
+    }
     if let Some((after, kind)) = plan.rebind {
         let (s2, ep2, r2) = (sim.clone(), ep.clone(), res.clone());
         spawn(&sim, &res, format!("client{}-rebind", ci), move |l| {
@@ -431,7 +446,7 @@ async fn client_main(sim: Sim, res: Res, lbl: Lbl, ep: Endpoint, cfg: quinn::Cli
                 // server discards packets from another address until it has completed it)
                 l.set("waiting for the server's handshake to complete");
                 let mut nap = MS;
-                while !r2.lock().unwrap().server_ready.contains(&ci) {
+                while !{ let r = r2.lock().unwrap(); r.server_ready.contains(&ci) && r.client_confirmed.contains(&ci) } {
                     if ep2.open_connections() == 0 {
                         l.set("done");
                         return;
@@ -702,13 +717,44 @@ async fn server_main(sim: Sim, res: Res, lbl: Lbl, ep: Endpoint, n_conns: u32, a
                     let (s3, r3, tx3) = (s2.clone(), r2.clone(), tx2.clone());
                     spawn(&s2, &r2, format!("server-conn{}", ci), move |l| {
                         Box::pin(async move {
-                            l.set("Incoming await");
-                            match inc.await {
-                                Ok(conn) => {
-                                    r3.lock().unwrap().server_ready.insert(ci);
-                                    server_conn(s3, r3, l, conn, ci, resp).await
+                            // one in three servers starts using the connection at once (0.5-RTT:
+                            // `Connecting::into_0rtt` always succeeds on the server side)
+                            if draw(&s3, "c18.half_rtt", 3) == 2 {
+                                l.set("Incoming::accept + into_0rtt");
+                                if let Ok(connecting) = inc.accept() {
+                                    match connecting.into_0rtt() {
+                                        Ok(conn) => {
+                                            s3.with(|s| s.probes.hit("server_half_rtt_connection"));
+                                            let (r4, c4) = (r3.clone(), conn.clone());
+                                            spawn(&s3, &r3, format!("server-conn{}-established", ci), move |l2| {
+                                                Box::pin(async move {
+                                                    l2.set("handshake_confirmed()");
+                                                    if c4.handshake_confirmed().await.is_ok() {
+                                                        r4.lock().unwrap().server_ready.insert(ci);
+                                                    }
+                                                    drop(c4);
+                                                    l2.set("done");
+                                                })
+                                            });
+                                            server_conn(s3, r3, l, conn, ci, resp).await
+                                        }
+                                        Err(connecting) => {
+                                            if let Ok(conn) = connecting.await {
+                                                r3.lock().unwrap().server_ready.insert(ci);
+                                                server_conn(s3, r3, l, conn, ci, resp).await
+                                            }
+                                        }
+                                    }
                                 }
-                                Err(_) => {}
+                            } else {
+                                l.set("Incoming await");
+                                match inc.await {
+                                    Ok(conn) => {
+                                        r3.lock().unwrap().server_ready.insert(ci);
+                                        server_conn(s3, r3, l, conn, ci, resp).await
+                                    }
+                                    Err(_) => {}
+                                }
                             }
                             let _ = tx3.send(());
                         })
